@@ -18,7 +18,10 @@ from numpy.typing import ArrayLike, DTypeLike
 import onnx_ir as ir
 
 from jax2onnx.converter.typing_support import LoweringContextProtocol
-from jax2onnx.ir_utils import numpy_dtype_to_ir
+from jax2onnx.ir_utils import (
+    numpy_dtype_to_ir,
+    numpy_dtype_to_ir_with_float_policy,
+)
 from jax2onnx.plugins.jax._autodiff_utils import (
     register_allowlisted_original_rule_forwarding,
 )
@@ -244,7 +247,11 @@ class JnpConcatenatePlugin(PrimitiveLeafPlugin):
         target_dtype = _promote_dtype(
             [np.dtype(getattr(v.aval, "dtype", np.float32)) for v in in_vars]
         )
-        target_enum = numpy_dtype_to_ir(target_dtype)
+        # float32 values are carried as DOUBLE under enable_double_precision: the
+        # operands that are cast must land in the carrier type of the others.
+        target_enum = numpy_dtype_to_ir_with_float_policy(
+            target_dtype, bool(getattr(ctx.builder, "enable_double_precision", False))
+        )
 
         inputs: list[ir.Value] = []
         for var in in_vars:
